@@ -97,6 +97,8 @@ struct Spec {
     dist: bool,
     rs: Vec<Vec<f32>>,
     ps: Vec<Vec<f32>>,
+    /// also read the result back through Profile::save (sequential cases only: one file per process)
+    save: bool,
 }
 
 /// what the real code did with it
@@ -108,6 +110,10 @@ struct Outcome {
     counters: Vec<usize>,
     stored: Vec<(f32, f32)>,
     weights: Vec<f32>,
+    /// the same average strategy read through `Profile::policy(bucket)` (what `Blueprint::policy` hands to players)
+    via_policy: Vec<f32>,
+    /// ... and through `Profile::save()`: (regret, policy) of the rows of the written file, when asked for
+    via_file: Option<Vec<(f32, f32)>>,
     epochs: usize,
     walker: String,
 }
@@ -152,7 +158,7 @@ fn make_spec(rng: &mut Rng, case: usize, label: &str, force_len: Option<usize>, 
             ps.push(p);
         }
 
-        Spec { case: format!("{label} {case}"), n, len, start, edges, bucket, witnessed, prior, style, dist, rs, ps }
+        Spec { case: format!("{label} {case}"), n, len, start, edges, bucket, witnessed, prior, style, dist, rs, ps, save: false }
 }
 
 /// the real code: Profile::add_regret, add_policy, next, walker, weight
@@ -179,11 +185,27 @@ fn simulate(spec: &Spec) -> Outcome {
             }
         }));
     if ok.is_none() {
-        return Outcome { ok: false, fresh_walker, fresh_epochs, walkers, counters, stored: vec![], weights: vec![], epochs: 0, walker: String::new() };
+        return Outcome { ok: false, fresh_walker, fresh_epochs, walkers, counters, stored: vec![], weights: vec![], via_policy: vec![], via_file: None, epochs: 0, walker: String::new() };
     }
     let stored: Vec<(f32, f32)> = edges.iter().map(|e| profile.verif_memory(bucket, e).expect("stored")).collect();
     let weights: Vec<f32> = edges.iter().map(|e| profile.weight(bucket, e)).collect();
-    Outcome { ok: true, fresh_walker, fresh_epochs, walkers, counters, stored, weights, epochs: profile.epochs(), walker: walker_of(&profile) }
+    let read = profile.policy(bucket);
+    let via_policy: Vec<f32> = edges.iter().map(|e| read.inner().get(e).copied().unwrap_or(f32::NAN)).collect();
+    let via_file = if spec.save {
+        use robopoker::save::upload::Table;
+        std::fs::create_dir_all("pgcopy").expect("pgcopy dir");
+        profile.save();
+        let bytes = std::fs::read(Profile::path(robopoker::cards::street::Street::Pref)).expect("saved blueprint");
+        // 19-byte header, 66-byte rows (u16 count, 4 x (u32 len, u64), 2 x (u32 len, f32)), rows in key order
+        Some((0..edges.len()).map(|k| {
+            let o = 19 + 66 * k;
+            let f = |i: usize| f32::from_be_bytes(bytes[o + i..o + i + 4].try_into().unwrap());
+            (f(54), f(62))
+        }).collect())
+    } else {
+        None
+    };
+    Outcome { ok: true, fresh_walker, fresh_epochs, walkers, counters, stored, weights, via_policy, via_file, epochs: profile.epochs(), walker: walker_of(&profile) }
 }
 
 /// correspondence line + search oracle (f64 closed forms) for one sequence
@@ -211,7 +233,31 @@ fn judge(run: &mut Run, spec: &Spec, out: &Outcome) {
         }
         let mut ans = format!("{} {}", out.epochs, out.walker);
         for i in 0..n {
-            ans.push_str(&format!(" {} {} {}", tok(stored[i].0), tok(stored[i].1), tok(weights[i])));
+            ans.push_str(&format!(" {} {} {} {}", tok(stored[i].0), tok(stored[i].1), tok(weights[i]), tok(out.via_policy[i])));
+        }
+        // every public read path must show the same stored average strategy
+        run.spec_checked += 1;
+        let total: f64 = out.via_policy.iter().map(|x| *x as f64).sum();
+        for i in 0..n {
+            let raw_ok = out.via_policy[i].to_bits() == stored[i].1.to_bits();
+            let norm = out.via_policy[i] as f64 / total;
+            let norm_ok = (norm - weights[i] as f64).abs() <= 1e-5 * norm.abs() + 1e-7 || !(weights[i].is_finite());
+            if !(raw_ok && norm_ok) {
+                run.fail("average-strategy-read-path-disagrees", &format!("{what}, action {i}"),
+                    &format!("Profile::policy = stored {:e}, normalised = Profile::weight {:e}", stored[i].1, weights[i]),
+                    &format!("Profile::policy gives {:e}, normalised {norm:e}", out.via_policy[i]));
+                break;
+            }
+        }
+        if let Some(rows) = &out.via_file {
+            run.spec_checked += 1;
+            run.count("read back through Profile::save");
+            for i in 0..n {
+                if rows[i].0.to_bits() != stored[i].0.to_bits() || rows[i].1.to_bits() != stored[i].1.to_bits() {
+                    run.fail("average-strategy-read-path-disagrees", &format!("{what}, action {i}, saved file"), &format!("{:?}", stored[i]), &format!("{:?}", rows[i]));
+                    break;
+                }
+            }
         }
         run.line(&op, &ans);
         run.distinct(&op);
@@ -350,7 +396,8 @@ fn main() {
     for case in 0..nseq {
         // every fourth sequence is long and one-sided so that accumulated values cross +-REGRET_MIN
         let (fl, fs) = if case % 4 == 3 { (Some(1300 + rng.below(701) as usize), Some(6 + rng.below(2))) } else { (None, None) };
-        let spec = make_spec(&mut rng, case, "case", fl, fs);
+        let mut spec = make_spec(&mut rng, case, "case", fl, fs);
+        spec.save = case < 40 || case % 16 == 0;
         let out = simulate(&spec);
         judge(&mut run, &spec, &out);
     }
@@ -430,7 +477,7 @@ fn main() {
         "{nseq} sequences at one information set: 1-5 actions, length in {{1..4, 1..40, 2000, around the discount-phase boundary {CFR_DISCOUNT_PHASE}, 1..2000}}, \
          counter starting at 0 (6/10) or 1..3 / around the discount boundary / around the pruning boundary / <5000, priors as stored by witness (3/4) or arbitrary as after load, \
          8 regret styles (uniform +-100, sparse +-1e4 with zeros, half-integers with zeros, all negative down to the clamp, all positive, +- over 29 binary orders of magnitude, one-sided -250..-400 and +250..+400; every fourth sequence is one-sided with 1300-2000 epochs so that accumulated regret crosses -+3e5), \
-         per-epoch strategies normalised (3/4) or arbitrary non-negative with zeros; every epoch = real add_regret + add_policy + next; final stored regret, policy, weight(), counter, walker compared; \
+         per-epoch strategies normalised (3/4) or arbitrary non-negative with zeros; every epoch = real add_regret + add_policy + next; final stored regret, policy, weight(), Profile::policy() (and the saved file for some), counter, walker compared, all read paths required to agree; \
          plus 8 threads training independent profiles concurrently (long 1500-2000-epoch sequences beside repeated short ones, different counters), each judged like the others; plus Discount::policy, the regret factor seen through add_regret for 5 regret signs, Phase::from, walker, next at {} counters. A sequence is non-trivial when it has >= 1 epoch (all); distinct by the full op line",
         ts.len()
     );
